@@ -425,10 +425,10 @@ func (r *c09Run) quiescenceInvariants() {
 // ---- linearizability (outside the bubble) ----
 
 type mstate struct {
-	ids    []string // live, oldest first: "id=token"
-	seen   []bool
-	ever   string // "|id|id|" ids ever issued
-	capN   int
+	ids  []string // live, oldest first: "id=token"
+	seen []bool
+	ever string // "|id|id|" ids ever issued
+	capN int
 }
 
 func (s mstate) key() string {
@@ -605,12 +605,12 @@ func postC09(c *Ctx, cs Case) {
 
 func init() {
 	register(&Prop{
-		ID:    "C09",
-		Level: "exploration",
-		Gen:   genC09,
-		Run:   runC09,
-		Post:  postC09,
-		Config: func(cs Case) simrt.Config { return simrt.Config{NoJumps: true, MaxSteps: 100000} },
+		ID:                "C09",
+		Level:             "exploration",
+		Gen:               genC09,
+		Run:               runC09,
+		Post:              postC09,
+		Config:            func(cs Case) simrt.Config { return simrt.Config{NoJumps: true, MaxSteps: 100000} },
 		BudgetIsViolation: true,
 		RaceCompanion:     "C09R",
 		QuickRuns:         50000,
